@@ -2,6 +2,7 @@
 package main
 
 import (
+	"crypto/sha256"
 	"fmt"
 	"os"
 	"go/types"
@@ -84,9 +85,14 @@ func (e *Engine) checkObligation(kind, label string, prop *T) {
 		e.obligs = append(e.obligs, ob)
 		return
 	}
-	if e.failedLabels[kind+":"+label] {
-		// a replayable counterexample for this obligation already exists: only record the verdict on this path
-		r, _, _ := e.solve([]*T{Not(prop)}, false, e.cfg.AssertTimeoutMs, nil)
+	if e.failedLabels[kind+":"+label] || e.unknownLabels[kind+":"+label] >= 3 {
+		// a replayable counterexample for this obligation already exists (or it has repeatedly timed out): only
+		// record a quick verdict on this path, so a broken tree is reported fast
+		quick := 2000
+		if !e.failedLabels[kind+":"+label] {
+			quick = e.cfg.AssertTimeoutMs / 4
+		}
+		r, _, _ := e.solve([]*T{Not(prop)}, false, quick, nil)
 		ob.Verdict, ob.Solver, ob.Ms = r.Res, r.Solver, time.Since(t0).Milliseconds()
 		e.obligs = append(e.obligs, ob)
 		return
@@ -111,6 +117,11 @@ func (e *Engine) checkObligation(kind, label string, prop *T) {
 	if r.Res == "sat" {
 		ob.Model = e.modelOf(r, names)
 		e.failedLabels[kind+":"+label] = true
+	} else if r.Res != "unsat" {
+		if e.unknownLabels == nil {
+			e.unknownLabels = map[string]int{}
+		}
+		e.unknownLabels[kind+":"+label]++
 	}
 	e.obligs = append(e.obligs, ob)
 }
@@ -255,6 +266,10 @@ func init() {
 
 // hashUF: uninterpreted hash with fixed output length.
 func (e *Engine) hashUF(name string, arg *T, n int) *T {
+	if c, ok := goStr(arg); ok && name == "sha256" {
+		h := sha256.Sum256([]byte(c))
+		return StrConst(string(h[:]))
+	}
 	t := UF(name, StrS, arg)
 	t.FixLen = n
 	e.addAxiom(fmt.Sprintf("len:%d", t.id), Eq(mk("str.len", IntS, t), IntConst(int64(n))))
